@@ -201,10 +201,16 @@ func (t *Case) Str() string {
 	return fmt.Sprintf("case %s (%s)", t.From, strings.Join(bs, " | "))
 }
 func (t *New) Str() string {
-	if t.Ann {
-		return fmt.Sprintf("%s : %s <- new %s; %s", t.X, t.XT.Text(), t.Body.Str(), t.K.Str())
+	body := t.Body.Str()
+	switch t.Body.(type) {
+	case *Recv, *New, *Wait, *Split, *Drop, *Print, *Shift, *Case:
+		// a body with a continuation of its own is bracketed: `x <- new (P1; P2); Q`
+		body = "(" + body + ")"
 	}
-	return fmt.Sprintf("%s <- new %s; %s", t.X, t.Body.Str(), t.K.Str())
+	if t.Ann {
+		return fmt.Sprintf("%s : %s <- new %s; %s", t.X, t.XT.Text(), body, t.K.Str())
+	}
+	return fmt.Sprintf("%s <- new %s; %s", t.X, body, t.K.Str())
 }
 func (t *Call) Str() string  { return fmt.Sprintf("%s(%s)", t.F, strings.Join(t.Args, ", ")) }
 func (t *Close) Str() string {
